@@ -63,7 +63,8 @@ def eval_motor(ctx, cases):
         if out[3] != c['tmax'][1]:
             ctx.note('driving torque unit differs from the maximum torque unit')
         # region of the characteristic, decided with exact rationals; within 4 ulp of the boundary both laws are accepted
-        on_edge = pmin is not None and abs(abs(D) - pmin) <= 4 * math.ulp(pmin) and abs(D) != pmin
+        # (the code computes i0/imax through a unit conversion, so its boundary may sit a few ulp from ours)
+        on_edge = pmin is not None and abs(abs(D) - pmin) <= 4 * math.ulp(pmin)
         wantT = motor_law(mp, w, D)
         if on_edge:
             ctx.count('within 4 ulp of the dead-zone boundary')
